@@ -22,8 +22,27 @@ class Undecided(Exception):
 T_INT, T_BOOL, T_STR, T_NONE, T_VAL = ('int',), ('bool',), ('str',), ('none',), ('val',)
 
 
+def _split_union(s):
+    out, depth, cur = [], 0, ''
+    for ch in s:
+        if ch == '[':
+            depth += 1
+        elif ch == ']':
+            depth -= 1
+        if ch == '|' and depth == 0:
+            out.append(cur)
+            cur = ''
+        else:
+            cur += ch
+    out.append(cur)
+    return out
+
+
 def parse_type(s):
     s = s.strip()
+    alts = _split_union(s)
+    if len(alts) > 1:
+        return ('union', tuple(parse_type(x) for x in alts))
     simple = {'int': T_INT, 'bool': T_BOOL, 'str': T_STR, 'None': T_NONE,
               'Val': T_VAL, 'object': T_VAL, 'Any': T_VAL}
     if s in simple:
@@ -44,7 +63,11 @@ def parse_type(s):
             return ('set', parse_type(parts[0]))
         if head in ('reclist',):
             return ('reclist', parts[0].strip())
+        if head in ('map',):
+            return ('map', parse_type(parts[0]), parse_type(parts[1]))
         raise ValueError('unknown type %r' % s)
+    if s.startswith("'") and s.endswith("'"):
+        return ('const', s[1:-1])
     return ('obj', s)
 
 
@@ -283,12 +306,23 @@ class HObjList(object):
         self.cls = cls
 
 
-class HInst(object):
-    __slots__ = ('cls', 'fields')
+class HMap(object):
+    """Symbolic dict with Int keys: presence array + value array (+ value type)."""
+    __slots__ = ('present', 'vals', 'vty')
 
-    def __init__(self, cls, fields):
+    def __init__(self, present, vals, vty):
+        self.present = present
+        self.vals = vals
+        self.vty = vty
+
+
+class HInst(object):
+    __slots__ = ('cls', 'fields', 'view')
+
+    def __init__(self, cls, fields, view=None):
         self.cls = cls
         self.fields = dict(fields)
+        self.view = view        # (reclist base, index term) for read-only element views
 
 
 def wrap(t, ty):
